@@ -67,7 +67,8 @@ Proof. exact c_lax_max_digits_carry. Qed.
    Spec/Stable.v: `stable t` — builtin classes, data classes, unions (| and ^) of builtin classes and data
    classes, negations, constrained scalars and Optional-style rules over a stable origin, homogeneous
    sequences (list / set / frozenset / variable-length tuple) of stable element types, fixed-length
-   tuples Tuple[T1, ..., Tn] and mappings Dict[K, V] of stable types, all with checking (non-lax) constraints;
+   tuples Tuple[T1, ..., Tn] and mappings Dict[K, V] of stable types, all with checking (non-lax) constraints and,
+   on the containers, `contains` of any type (it only counts the accepting elements);
    `throwing o` — the default 'throw' policies.  Nothing is assumed about the result w: that it has the declared
    classes position by position (`typed`: converted scalars — int(...) returns an int proper —, elements, the results
    of the three union stages and of the ^ loop, rebuilt containers) is derived from the first parse
@@ -132,4 +133,16 @@ Example C03_reparse_tuple_nonvacuous :
   stable tuple_int_str = true /\
   type_transform (fun _ _ => false) (fun _ => None) 5 default_options tuple_int_str (PList [PStr "1"; PInt 2]) = Ok w /\
   type_transform (fun _ _ => false) (fun _ => None) 5 default_options tuple_int_str w = Ok w.
+Proof. repeat split; vm_compute; reflexivity. Qed.
+
+(* a list with a `contains` constraint (at least one element >= 3) *)
+Definition list_contains : ty :=
+  TRule (Some (TPrim TList)) [TPrim TInt] false []
+        (Some (TRule (Some (TPrim TInt)) [] false [("ge", PInt 3, false)] None None None)) (Some 1) None.
+Example C03_reparse_contains_nonvacuous :
+  let w := PList [PInt 1; PInt 5] in
+  stable list_contains = true /\
+  type_transform (fun _ _ => false) (fun _ => None) 6 default_options list_contains (PList [PStr "1"; PInt 5]) = Ok w /\
+  type_transform (fun _ _ => false) (fun _ => None) 6 default_options list_contains w = Ok w /\
+  is_ok (type_transform (fun _ _ => false) (fun _ => None) 6 default_options list_contains (PList [PInt 1; PInt 2])) = false.
 Proof. repeat split; vm_compute; reflexivity. Qed.
